@@ -112,16 +112,12 @@ caught = None
 if confirmed:
     for tier in (["quick", "thorough"] if thorough else ["quick"]):
         rc, out = sh("/verif/mut.sh %s %s %s" % (patch, ID, tier), cwd="/verif", timeout=7200)
-        lines = [l for l in out.splitlines() if ("violation detail" in l or " %s:" % tier in l or "INFRA" in l or "mut rc" in l)]
+        lines = [l for l in out.splitlines() if ("violation detail" in l or "VIOLATION" in l or " %s:" % tier in l or "INFRA" in l or "mut rc" in l)]
         verdict["vcheck_%s" % tier] = {"rc": rc, "lines": [l[:500] for l in lines[-6:]]}
         if rc == 1:
             caught = tier
             break
-    sh("git checkout -- . && git status --short", cwd="/repo")
-    # remove replay files produced by the experiment
-    for f in os.listdir("/verif/replays"):
-        if f.startswith(ID + "-"):
-            os.remove(os.path.join("/verif/replays", f))
+    # mut.sh works on a scratch worktree and a scratch results directory: /repo and /verif/evidence are untouched
 verdict["caught_by"] = ("./vcheck %s %s" % (ID, caught)) if caught else None
 
 os.makedirs(DST, exist_ok=True)
